@@ -62,6 +62,10 @@ def calculate_checksum_udp(packet: Packet):
 
     calculated_checksum = ones_complement_checksum(pseudo_header)
 
+    # RFC 768: a computed checksum of zero is transmitted as all ones
+    if calculated_checksum == bytearray(b"\x00\x00"):
+        calculated_checksum = bytearray(b"\xff\xff")
+
     packet_checksum = packet.udp.sum.to_bytes(2, 'big')
     logging.info(f"expected checksum: 0x{calculated_checksum.hex()}, packet checksum: 0x{packet_checksum.hex()}")
 
